@@ -61,6 +61,7 @@ def run_c03(ctx):
     res = l1_both(ctx)
     cp = l2.corpus(ctx)
     l2.c03_cli(ctx, res, cp["structured"], 60 if not ctx.thorough() else 400)
+    l2.c03_environment(ctx, res, cp["structured"])
     l2.c03_objects(ctx, res)
     l2.c03_escape_output(ctx, res)
     res.require(["l2:run"], "L2")
